@@ -20,6 +20,11 @@ CLAIMED = {
     note="Trusted: Coq kernel + vm_compute (theorems are axiom-free); table dumper harness/c20.py (imports /repo, prints Coq literals, uses the repo's own _get_translation_table for vector expansion); Python dict semantics; rows with hand conversions are covered by the oracle only.",
     technique="Coq proof (association-list renaming = simultaneous substitution) + regenerated-table obligations by vm_compute + correspondence",
     design="DESIGN.md §3 C20"),
+ "C18": dict(
+    text="Coq theorems over every number of processes, every interleaving of {lookup, write half, write rest, publish, load} and every kill point (a killed process is one never scheduled again): for the temp-name + os.replace protocol the final cache name is never partial and every load saw a complete library (C18_publish_safe, invariant by induction over the schedule), and after any such history a fresh process succeeds (C18_recovers); the in-place protocol of the unrepaired code is refuted by explicit schedules. Tied to the code by driving real load_model processes against one cache directory through a scripted compiler (CC) that blocks between the steps, SIGKILLing paused builders, and comparing the observed history of the final name and of each load with the Coq model run on the same schedule.",
+    note="Trusted: Coq kernel (axiom-free theorems); POSIX rename atomicity and dlopen; harness/c18.py (scripted compiler, process driver); the model's step granularity (lookup+load and publish+load cannot be separated in the real process without hooks and are scheduled back to back).",
+    technique="Coq proof (invariant over all schedules and crash points) + real-process schedule correspondence",
+    design="DESIGN.md §3 C18"),
 }
 NA_REASON = "check not built yet in this session (planned, see DESIGN.md §7)"
 
